@@ -18,9 +18,10 @@ def NodeWFs : List Node → Bool
   | n :: ns => NodeWF n && NodeWFs ns
 end
 
-/-- A bool-kinded scalar is spelled `bool`: for a *named* bool type the emitter produces a six-way
-comparison (`>` on bool) that the Go compiler rejects (C14 class `named-scalar`). -/
-def boolSpelled (i : Info) : Bool := i.typu != "bool" || i.typn == "bool"
+/-- A bool-kinded scalar held by value is spelled `bool`: for a *named* bool type the emitter produces a
+six-way comparison (`>` on bool) that the Go compiler rejects (C14 class `named-scalar`); behind a pointer
+only the nil comparison is emitted, which compiles. -/
+def boolSpelled (i : Info) : Bool := i.typu != "bool" || i.typn == "bool" || i.ptr
 
 mutual
 /-- Conditions every tree with a *compiling* inspector meets (consequences of `uncompilable = none`,
@@ -31,7 +32,7 @@ def EmitOK : Node → Bool
   | .basic i => boolSpelled i
   | .struct _ chld => EmitOKs chld
   | .map _ k v => EmitOK k && EmitOK v && !v.isBytes
-  | .slice _ e => EmitOK e && !e.isBytes
+  | .slice i e => i.typn == "[]byte" || (EmitOK e && !e.isBytes)
 def EmitOKs : List Node → Bool
   | [] => true
   | n :: ns => EmitOK n && EmitOKs ns
